@@ -55,7 +55,7 @@ def expected_rows(model: Model, hist: Dict[str, Any], year: int, lo: date, hi: d
             earn = r["type"] in EARN_TYPES
             fee = lot.fiat_fee
             rows.append({"ts": ts, "month": ts.month, "day": ts.day, "client": r["ex"], "type": r["type"], "buy": lot.amount, "buy_yen": yen, "sell": Fraction(0) if earn else None, "sell_yen": yen if earn else None, "fee": fee})
-            if r.get("cfee"):
+            if r.get("cfee") and Fraction(r["cfee"]) > 0:  # an explicit crypto fee of 0 is no fee (no artificial fee row)
                 cfee = Fraction(r["cfee"])
                 rows.append({"ts": ts, "month": ts.month, "day": ts.day, "client": r["ex"], "type": "FEE", "buy": None, "buy_yen": None, "sell": cfee, "sell_yen": Fraction(0), "fee": cfee * lot.spot})
         elif r["t"] == "OUT":
